@@ -116,13 +116,22 @@ func Main(id, tier string) int {
 		if f := os.Getenv("VERIF_SCOPES"); f != "" {
 			// development aid: explore only the scopes whose name contains the filter (recorded as a cap)
 			for si, sc := range scopes {
-				if strings.Contains(sc.Name, f) {
+				match := false
+				for _, part := range strings.Split(f, ",") {
+					if part != "" && strings.Contains(sc.Name, part) {
+						match = true
+					}
+				}
+				if match {
 					chunk := max(sc.Size/uint64(env.Workers*24), 1)
 					for lo := uint64(0); lo < sc.Size; lo += chunk {
 						jobsFilter = append(jobsFilter, job{scope: si, lo: lo, hi: min(lo+chunk, sc.Size)})
 					}
 				}
 			}
+		}
+		if os.Getenv("VERIF_SCOPES") != "" && jobsFilter == nil {
+			jobsFilter = []job{} // a filter that matches nothing explores nothing
 		}
 		sum = RunScopes(env, exe, scopes, jobsFilter)
 		if jobsFilter != nil {
